@@ -104,6 +104,7 @@ Proof.
   - apply andb_prop in H as [H1 H2]. apply Z.eqb_eq in H1, H2. now subst.
   - apply andb_prop in H as [H1 H3]. apply andb_prop in H1 as [H1 H2].
     apply Z.eqb_eq in H1, H3. apply zlist_eqb_true in H2. now subst.
+  - apply andb_prop in H as [H1 H2]. apply Z.eqb_eq in H1, H2. now subst.
 Qed.
 
 Lemma pv_eqb_refl : forall a, pv_eqb a a = true.
@@ -127,6 +128,7 @@ Proof.
   - apply conv_eqb_refl. intros [x y]; cbn. now rewrite !fl_same_refl.
   - now rewrite !Z.eqb_refl.
   - now rewrite !Z.eqb_refl, zlist_eqb_refl.
+  - now rewrite !Z.eqb_refl.
 Qed.
 
 Lemma pvs_eqb_true : forall l m, pvs_eqb l m = true -> l = m.
@@ -342,14 +344,23 @@ Definition cast_no_escape (E : env) (v : pv) (a : desc) : bool :=
 (* Instance(C, allow_none=False) where None is an instance of C (excludes finding F18) *)
 Definition none_ok (E : env) (a : desc) : bool :=
   match a with DInstance cls false _ => negb (issub E cNONE cls) | _ => true end.
+(* a transparent proxy (its __class__ lies about its type) meets a validator whose compiled form uses the exact
+   PyObject_TypeCheck where the Python form uses isinstance: Str, Bytes, Bool, This, Instance of a built-in type *)
+Definition uses_typecheck (a : desc) : bool :=
+  match a with
+  | DStr | DBytes | DBool | DModule | DSelf _ => true
+  | DInstance _ _ tc => tc
+  | _ => false
+  end.
+Definition proxy_ok (a : desc) (v : pv) : bool := negb (is_proxy v) || negb (uses_typecheck a).
 (* the alternatives of a compound, through nested compounds *)
 Fixpoint alt_benign (E : env) (v : pv) (a : desc) : bool :=
   match a with
   | DCompound ds => forallb (alt_benign E v) ds
-  | _ => cast_no_escape E v a && none_ok E a
+  | _ => cast_no_escape E v a && none_ok E a && proxy_ok a v
   end.
 Definition benign (E : env) (d : desc) (v : pv) : bool :=
-  bool_final E && no_tuplesub v && none_ok E d &&
+  bool_final E && no_tuplesub v && none_ok E d && proxy_ok d v &&
   match d with
   | DCompound ds => forallb (alt_benign E v) ds
   | _ => true
@@ -364,14 +375,23 @@ Proof.
   - destruct (n =? 0); discriminate.
 Qed.
 
-Lemma isinstance_bool E v :
-  bool_final E = true -> isinstance E v cBOOL = true -> exists b, v = PBool b.
+Lemma typecheck_bool E v :
+  bool_final E = true -> typecheck E v cBOOL = true -> exists b, v = PBool b.
 Proof.
-  unfold bool_final, isinstance, issub. rewrite forallb_forall, existsb_exists.
+  unfold bool_final, typecheck, issub. rewrite forallb_forall, existsb_exists.
   intros HF ([a b] & Hin & H). cbn in H. apply andb_prop in H as [H1 H2].
   specialize (HF _ Hin). cbn in HF. rewrite H2 in HF. cbn in HF.
   apply Z.eqb_eq in H1, HF. subst. now apply class_bool.
 Qed.
+
+Lemma notproxy_isinstance E v c : is_proxy v = false -> isinstance E v c = typecheck E v c.
+Proof. unfold isinstance, typecheck. destruct v; cbn; try discriminate; intros _; apply orb_false_r. Qed.
+
+Lemma typecheck_isinstance E v c : typecheck E v c = true -> isinstance E v c = true.
+Proof. unfold isinstance, typecheck. intros ->. reflexivity. Qed.
+
+Lemma proxy_ok_notproxy a v : proxy_ok a v = true -> uses_typecheck a = true -> is_proxy v = false.
+Proof. unfold proxy_ok. intros H Hu. rewrite Hu in H. cbn in H. rewrite orb_false_r in H. now apply negb_true_iff. Qed.
 
 Lemma exact_class_cast E t v : class_of v = cast_cls t -> cast_fn E t v = Returns v.
 Proof.
@@ -400,18 +420,19 @@ Proof. destruct v; cbn; try discriminate. intros _ H; now inversion H. Qed.
 
 Lemma leaf_eq E a v :
   alt_ok a = true -> is_fast a = true -> bool_final E = true -> no_tuplesub v = true ->
-  cast_no_escape E v a = true -> none_ok E a = true -> (forall ds, a <> DCompound ds) ->
+  cast_no_escape E v a = true -> none_ok E a = true -> proxy_ok a v = true -> (forall ds, a <> DCompound ds) ->
   c_case E a v = py_validate E a v.
 Proof.
-  intros Hok Hf HB HT HC HN Hnc.
+  intros Hok Hf HB HT HC HN HP Hnc.
   destruct a; cbn in Hok, Hf; try discriminate; try (exfalso; eapply Hnc; reflexivity).
   - (* DInt *) cbn. dm.
   - (* DFloat *) cbn. dm.
   - (* DComplex *) cbn. dm.
-  - (* DStr *) reflexivity.
-  - (* DBytes *) reflexivity.
-  - (* DBool *) cbn. destruct (isinstance E v cBOOL) eqn:H1; cbn.
-    + destruct (isinstance_bool E v HB H1) as [b ->]. reflexivity.
+  - (* DStr *) cbn. now rewrite (notproxy_isinstance E v _ (proxy_ok_notproxy _ _ HP eq_refl)).
+  - (* DBytes *) cbn. now rewrite (notproxy_isinstance E v _ (proxy_ok_notproxy _ _ HP eq_refl)).
+  - (* DBool *) cbn. rewrite !(notproxy_isinstance E v _ (proxy_ok_notproxy _ _ HP eq_refl)).
+    destruct (typecheck E v cBOOL) eqn:H1; cbn.
+    + destruct (typecheck_bool E v HB H1) as [b ->]. reflexivity.
     + reflexivity.
   - (* DCast *) cbn in HC. cbn [c_case py_validate] in *.
     destruct (class_of v =? cast_cls t) eqn:Hc.
@@ -429,14 +450,18 @@ Proof.
     destruct (members (c_validate E) (d0 :: ds) vs) as [ws| |e]; try reflexivity.
     destruct (pvs_eqb ws vs) eqn:He; [|reflexivity].
     apply pvs_eqb_true in He. subst. now rewrite (tuple_items_exact v vs HT Hv).
-  - (* DInstance *) cbn in *. destruct allow_none.
+  - (* DInstance *)
+    assert (Hinst : (if tc then typecheck E v cls else isinstance E v cls) = isinstance E v cls).
+    { destruct tc; [|reflexivity]. symmetry. apply notproxy_isinstance. apply (proxy_ok_notproxy _ _ HP). reflexivity. }
+    cbn [c_case py_validate]. cbv zeta. rewrite Hinst. cbn in HN. destruct allow_none.
     + destruct (pv_eqb v PNone) eqn:Hn.
       * apply pv_eqb_none in Hn. now subst.
       * destruct v; try reflexivity. discriminate.
     + destruct v; try reflexivity. unfold isinstance. cbn.
       apply negb_true_iff in HN. fold cNONE. now rewrite HN.
   - (* DAdapt *) cbn. destruct v; reflexivity.
-  - (* DSelf *) cbn. destruct allow_none, (pv_eqb v PNone), (isinstance E v (e_self E)); reflexivity.
+  - (* DSelf *) cbn. rewrite (notproxy_isinstance E v _ (proxy_ok_notproxy _ _ HP eq_refl)).
+    destruct allow_none, (pv_eqb v PNone), (typecheck E v (e_self E)); reflexivity.
   - (* DCallable *) cbn. destruct v; cbn; try reflexivity; now destruct allow_none.
 Qed.
 
@@ -488,10 +513,12 @@ Lemma alt_eq E v : bool_final E = true -> no_tuplesub v = true -> forall a, alt_
 Proof.
   intros HB HT a. induction a as [d H|ds H|ds H|ds H] using desc_ind'.
   - (* leaves *) intros _ Hok Hf Hb.
-    assert (Hb' : cast_no_escape E v d && none_ok E d = true).
+    assert (Hb' : cast_no_escape E v d && none_ok E d && proxy_ok d v = true).
     { destruct d; try exact Hb. exfalso. destruct (H ds) as (_ & Hc & _). now apply Hc. }
-    apply andb_prop in Hb' as [Hc Hn]. apply leaf_eq; auto. intros ds Hd. destruct (H ds) as (_ & Hx & _). now apply Hx.
-  - (* Tuple *) intros _ Hok Hf Hb. apply leaf_eq; auto; try reflexivity. discriminate.
+    apply andb_prop in Hb' as [Hb' Hpx]. apply andb_prop in Hb' as [Hc Hn].
+    apply leaf_eq; auto. intros ds Hd. destruct (H ds) as (_ & Hx & _). now apply Hx.
+  - (* Tuple *) intros _ Hok Hf Hb. apply leaf_eq; auto; try reflexivity; try discriminate;
+      try (unfold proxy_ok; cbn; apply orb_true_r).
   - (* Compound *) intros Hwf _ _ Hb. cbn [c_case py_validate].
     rewrite (first_sel_ext is_fast (fun a => c_case E a v) (fun a => py_validate E a v)); [reflexivity|].
     intros a Hin Hfa. rewrite Forall_forall in H.
@@ -517,7 +544,8 @@ Lemma fast_eq_slow_lemma E d v :
   agrees (c_validate E d v) (py_validate E d v) = true.
 Proof.
   intros Hwf Hs Hb. unfold benign in Hb.
-  apply andb_prop in Hb as [Hb Hcomp]. apply andb_prop in Hb as [Hb HN]. apply andb_prop in Hb as [HB HT].
+  apply andb_prop in Hb as [Hb Hcomp]. apply andb_prop in Hb as [Hb HP]. apply andb_prop in Hb as [Hb HN].
+  apply andb_prop in Hb as [HB HT].
   destruct d; cbn in Hs; try discriminate;
     lazymatch goal with
     | |- agrees (c_validate E (DCast ?t) v) _ = true =>
